@@ -429,6 +429,11 @@ def _failed_marker_names_no_live_state(ctx, rep, tier):
     has to lie outside range(len(states)) - `len(states) - 1` names the last live state, and an empty chunk fed while the machine rests there answers FAIL."""
     model = ctx.model
     q = "CodegenCtx._fail_state_index"
+    if not model.has_func(q):
+        # a tree from before the marker existed (the pinned tree): there a failed machine has no resting number at all, which is what F-80 / F-12 were about
+        rep.rule("C05.o", "the 'failed' marker is the fail state's own index when that state is part of the machine and a number no state has otherwise")
+        rep.bad("C05.o", "CodegenCtx", "no `_fail_state_index`", "the code generator has no single definition of the number a failed machine rests at")
+        return
     fn = model.func(q)
     rep.rule("C05.o", "the 'failed' marker is the fail state's own index when that state is part of the machine and a number no state has (>= len(states)) when it was "
                       "removed: the answer to a call in the failed / a live state does not depend on whether remove-inaccessible-states ran")
